@@ -372,7 +372,40 @@ func cacheGen(r *common.Rand, mode string) cacheCase {
 	default:
 		c.Cap = 1 + r.Intn(6)
 	}
+	// one history in five begins with a story: a request K1 (two references of its own) and an event X of the same
+	// author are offered, then that author's request K2 naming K1 first and X after it
+	var story []string
+	if r.Chance(20) {
+		var k5, others []string
+		for _, id := range ids {
+			switch e := pool[id]; {
+			case e.Kind == 5:
+				k5 = append(k5, id)
+			case e.Kind < 20000 || e.Kind >= 30000:
+				others = append(others, id)
+			}
+		}
+		if len(k5) >= 2 && len(others) >= 2 {
+			k1, k2, x, y := k5[0], k5[1], others[0], others[1]
+			a := pool[k2].PK
+			e1, e2, ex := pool[k1], pool[k2], pool[x]
+			e1.PK, ex.PK = a, a
+			e1.Tags = [][]string{{"e", y}, {"a", "30000:" + a + ":b"}}
+			e2.Tags = [][]string{{"e", k1}, {"e", x}}
+			if r.Bool() {
+				e2.Tags = append(e2.Tags, []string{"e", y})
+			}
+			pool[k1], pool[k2], pool[x] = e1, e2, ex
+			story = []string{k1, x, k2}
+			if r.Bool() {
+				story = []string{x, k1, k2}
+			}
+		}
+	}
 	nsteps := r.Intn(2 * npool)
+	if nsteps < len(story) {
+		nsteps = len(story)
+	}
 	if mode == "c03" && nsteps > 24 {
 		nsteps = 24
 	}
@@ -384,7 +417,9 @@ func cacheGen(r *common.Rand, mode string) cacheCase {
 		if r.Chance(12) && i > 0 { // re-offer an earlier event
 			st.E = c.Steps[r.Intn(i)].E
 		}
-		if askedID != "" && r.Chance(50) {
+		if i < len(story) {
+			st.E = story[i]
+		} else if askedID != "" && r.Chance(50) {
 			// right after a query that named an event by its id: a deletion request of the pool that names it too
 			for _, id := range ids {
 				if e := pool[id]; e.Kind == 5 {
